@@ -10,28 +10,37 @@ Every case is one call of the real dfols.solve with a counting objective.  A cas
   unknown_key  a parameter name that does not exist: ValueError
 
 Signatures (a known finding is matched by signature; one defect = one signature):
-  C07:input_error_raises:<argkind>:<Exc>       invalid input raised instead of returning the input-error result
-                                               (<argkind> = user_param for all parameter-table cases, else the kind of
-                                               invalid argument incl. the context that matters, e.g. bounds_shape+scaling)
-  C07:bad_value_accepted:<key>                 out-of-range / wrongly typed value of <key> not reported
-  C07:bool_accepted_as_int                     True/False accepted for an int-typed key (bool is an int in Python)
-  C07:none_value_ignored                       None for a key whose table entry does not allow None is silently dropped
-  C07:bad_argument_accepted:<argkind>          invalid solve() argument not reported
+  C07:input_error_raises:<argkind>:<Exc>       invalid input raised before any objective evaluation instead of returning
+                                               the input-error result (<argkind> = user_param for all parameter-table
+                                               cases, else the kind of invalid argument incl. the context that matters,
+                                               e.g. bounds_shape+scaling)
+  C07:bad_value_accepted:<key>                 out-of-range / wrongly typed value of <key> not reported: the solver went
+                                               on to evaluate the objective (whether it then returned, raised or spun)
+  C07:bool_accepted_as_int                     ... True/False for an int-typed key (bool is an int in Python)
+  C07:none_value_ignored                       ... None for a key whose table entry does not allow None (silently dropped)
+  C07:bad_argument_accepted:<argkind>          invalid solve() argument not reported (same criterion)
   C07:input_error_nonzero_evals:<argkind>      input-error result but nf != 0 or the objective was called
   C07:input_error_empty_msg / C07:empty_msg    msg empty or not a string
   C07:str_raises:<Exc>                         str(soln) raised (any result)
   C07:good_value_rejected:<key>                in-range / boundary value of <key> reported as input error
   C07:valid_argument_rejected:<argkind>        valid (boundary) argument reported as input error
-  C07:valid_input_raises:<Exc>@<module>.<function>   valid input raised; keyed by the innermost dfols frame
-  C07:valid_input_hangs:<key|argkind|optionset>      valid input: no return within the CPU limits (see _Watch)
+  C07:valid_input_raises:<Exc>@<module>.<function>   valid input raised; keyed by the innermost dfols frame (LinAlgError
+                                               with interpolation.throw_error_on_nans=True is documented, not reported)
+  C07:valid_input_hangs:<key|argkind|optionset>      valid input: CPU_NOEVAL_LIMIT seconds of CPU time without a single
+                                               objective evaluation (see _Watch; slow-but-evaluating runs are not judged)
   C07:undocumented_flag:<flag>                 flag not among the exit codes named in the user guide
   C07:unknown_param_no_valueerror:<outcome>    unknown parameter name did not raise ValueError
   C07:exit_constant_missing:<NAME>             result object lacks an EXIT_* constant named in the user guide
   C07:documented_key_unknown:<key>             key documented in docs/advanced.rst is not a known parameter
  known limitations / corner cases (named by the property / the task):
-  C07:projections_npt_runtimeerror             projections with npt != n+1 or a reduced initial set -> RuntimeError
-  C07:sfista_zero_iters                        func_tol.max_iters = 0 with a regulariser -> UnboundLocalError
-  C07:growing_zero_division                    growing with npt > n+1 -> ZeroDivisionError
+  C07:projections_npt_runtimeerror             projections with npt != n+1 (also after restarts.increase_npt) or a reduced
+                                               initial set -> RuntimeError 'Unable to generate suitable initial directions'
+  C07:sfista_zero_iters                        func_tol.max_iters = 0 with a regulariser -> UnboundLocalError (numpy-float
+                                               lh) or ZeroDivisionError (Python-float lh) in trust_region.ctrsbox_sfista
+  C07:growing_zero_division                    growing with npt > n+1 (set by the user or reached by hard restarts with
+                                               restarts.increase_npt) -> division by a zero norm in
+                                               controller.add_new_direction_while_growing / get_new_direction_for_growing:
+                                               ZeroDivisionError, or NaN point -> ValueError in the next factorisation
 """
 import contextlib, io, logging, math, os, re, signal, sys, time, traceback, warnings
 
@@ -1044,14 +1053,14 @@ def tasks(seed, tier):
     quick = (tier == 'quick')
     out = []
     chunk = 4 if quick else 2
-    reps = 2 if quick else 12          # problems/contexts per key; every other (quick) / fourth (thorough) one is plain
+    reps = 2 if quick else 40          # problems/contexts per key; every other (quick) / fourth (thorough) one is plain
     i = 0
     for rep in range(reps):
         plain = (rep % 2 == 1) if quick else (rep % 4 == 3)
         for j in range(0, len(keys), chunk):
             out.append(('keys', int(seed), i, keys[j:j + chunk], bool(plain)))
             i += 1
-    for j in range(10 if quick else 160):
+    for j in range(10 if quick else 200):
         out.append(('args', int(seed), i, 40))
         i += 1
     for j in range(32 if quick else 640):
